@@ -487,3 +487,43 @@ pub mod imports {
         })
     }
 }
+
+/// White-space passes (newline_style.rs, missed_spans.rs, shape.rs, utils.rs).
+pub mod whitespace {
+    use super::*;
+
+    /// `apply_newline_style(style, formatted, raw_input_text)`.
+    pub fn apply_newline_style(style: crate::NewlineStyle, formatted: &str, raw: &str) -> String {
+        crate::formatting::verif::apply_newline(style, formatted, raw)
+    }
+
+    /// `push_vertical_spaces(newline_count)` on a visitor whose buffer is `buffer`.
+    pub fn push_vertical_spaces(buffer: &str, newline_count: usize, config: &Config) -> Option<String> {
+        with_crate("", config, |_krate, context| {
+            let mut v = crate::visitor::FmtVisitor::from_context(context);
+            v.buffer = buffer.to_owned();
+            crate::missed_spans::verif::push_vertical_spaces(&mut v, newline_count);
+            v.buffer.clone()
+        })
+    }
+
+    /// `Indent::new(block, alignment).to_string(config)` (with_newline: `to_string_with_newline`).
+    pub fn indent_to_string(block: usize, alignment: usize, with_newline: bool, config: &Config) -> String {
+        let i = crate::shape::Indent::new(block, alignment);
+        if with_newline {
+            i.to_string_with_newline(config).into_owned()
+        } else {
+            i.to_string(config).into_owned()
+        }
+    }
+
+    /// `Indent::from_width(config, width)` as (block_indent, alignment).
+    pub fn indent_from_width(width: usize, config: &Config) -> (usize, usize) {
+        let i = crate::shape::Indent::from_width(config, width);
+        (i.block_indent, i.alignment)
+    }
+
+    pub fn remove_trailing_white_spaces(text: &str) -> String {
+        crate::utils::remove_trailing_white_spaces(text)
+    }
+}
